@@ -109,6 +109,8 @@ enum Choice {
     Idx(u128),
     IdxFrom(u128),
     Variant(u32),
+    /// a concrete value of a small raw-value parameter (enum conversions over at most 8 bits)
+    Concrete(u128),
 }
 
 fn param_choices<'tcx>(tcx: TyCtxt<'tcx>, ty: Ty<'tcx>, hint: Option<u128>, is_self: bool) -> Vec<Choice> {
@@ -295,6 +297,27 @@ fn analyze_fn<'tcx>(tcx: TyCtxt<'tcx>, ldid: LocalDefId, hints: &BTreeMap<String
             return obj(&items);
         }
     }
+    // conversions *into* a local enum from a raw value of at most 8 bits are additionally analysed for every
+    // concrete raw value: exact whatever the control flow looks like (match, if-chain, table, ...)
+    if nparams == 1 {
+        let pty = body.local_decls[rustc_middle::mir::Local::from_usize(1)].ty;
+        let small: Option<usize> = match interp::adt_is_uint(tcx, pty) {
+            Some((_, n)) if n <= 8 => Some(n),
+            _ => match pty.kind() {
+                ty::Uint(ty::UintTy::U8) => Some(8),
+                _ => None,
+            },
+        };
+        let self_is_enum = tcx
+            .impl_of_assoc(did)
+            .map(|i| matches!(tcx.type_of(i).instantiate_identity().skip_norm_wip().kind(), ty::Adt(d, _) if d.is_enum() && d.did().is_local()))
+            .unwrap_or(false);
+        if let (Some(n), true) = (small, self_is_enum) {
+            for v in 0..(1u128 << n) {
+                combos.push(vec![Choice::Concrete(v)]);
+            }
+        }
+    }
     let mut runs: Vec<String> = Vec::new();
     for combo in combos.iter() {
         let mut it = Interp::new(tcx);
@@ -342,6 +365,16 @@ fn analyze_fn<'tcx>(tcx: TyCtxt<'tcx>, ldid: LocalDefId, hints: &BTreeMap<String
                 Choice::Variant(v) => {
                     part.push((pname.clone(), format!("variant{}", v)));
                     Val::Enum { variant: *v, fields: Vec::new() }
+                }
+                Choice::Concrete(v) => {
+                    part.push((pname.clone(), format!("={}", v)));
+                    match interp::adt_is_uint(tcx, ty) {
+                        Some((inner, _)) => {
+                            let w = interp::int_width(inner).map(|x| x.0).unwrap_or(8);
+                            Val::Struct(vec![interp::int_const(*v, w, false)])
+                        }
+                        None => interp::int_const(*v, 8, false),
+                    }
                 }
             };
             args.push(v);
